@@ -33,6 +33,19 @@ def _model_values(model, names):
     return vals
 
 
+def _model_ok(model, formulas):
+    """A `sat` answer is only used if the model really satisfies every (quantifier-free) assertion: z3 5.1 has returned
+    models over wide-Unicode loop expressions that falsify the very formula they were produced for."""
+    for f in formulas:
+        try:
+            v = model.eval(f, model_completion=True)
+        except z3.Z3Exception:
+            continue
+        if z3.is_false(v):
+            return False
+    return True
+
+
 def _decode_z3_string(s):
     # z3 prints non-ASCII as \u{XXXX}
     return re.sub(r"\\u\{([0-9a-fA-F]+)\}", lambda m: chr(int(m.group(1), 16)), s)
@@ -63,11 +76,56 @@ def regex_cegar(smt2, timeout_s, input_names):
     t0 = time.time()
     ctx = z3.Context()
     fs = z3.parse_smt2_string(smt2, ctx=ctx)
+    # one normal form for all terms: the same subject written by the code (conditions are simplified when a path forks)
+    # and by a specification must be ONE subject, or its memberships are never confronted with each other
     atoms, seen = [], set()
     for f in fs:
         _find_inre(f, atoms, seen)
     if not atoms:
         return None
+    # subjects that are the same value written differently (e.g. `parts[-1] if parts else ""` once with and once without
+    # the redundant bounds test) are made ONE term: t1 == t2 must be valid on its own, then t2 is rewritten to t1 everywhere
+    subjects = {}
+    for a in atoms:
+        subjects.setdefault(a.arg(0).get_id(), a.arg(0))
+    subjects = list(subjects.values())
+    rewrites = []
+    if 1 < len(subjects) <= 8:
+        rep = []
+        for t in subjects:
+            for r in rep:
+                if r.sort() != t.sort():
+                    continue
+                q = z3.Solver(ctx=ctx)
+                q.set("timeout", 1000)
+                q.add(r != t)
+                if q.check() == z3.unsat:
+                    rewrites.append((t, r))
+                    break
+            else:
+                rep.append(t)
+    # ... and subjects identified by an unconditional equality of the problem itself (observer constants: `obs_name == name`)
+    def _conj(f):
+        if z3.is_and(f):
+            for c in f.children():
+                yield from _conj(c)
+        else:
+            yield f
+    sid = {t.get_id() for t in subjects}
+    for c in [c for f in fs for c in _conj(f)]:
+        if z3.is_eq(c) and c.arg(0).sort() == z3.StringSort(ctx):
+            l, r = c.arg(0), c.arg(1)
+            if l.get_id() in sid and r.get_id() in sid:
+                rewrites.append((l, r))
+            elif l.get_id() in sid and z3.is_const(l) and l.decl().kind() == z3.Z3_OP_UNINTERPRETED:
+                rewrites.append((l, r))
+            elif r.get_id() in sid and z3.is_const(r) and r.decl().kind() == z3.Z3_OP_UNINTERPRETED:
+                rewrites.append((r, l))
+    if rewrites:
+        fs = [z3.substitute(f, *rewrites) for f in fs]
+        atoms, seen = [], set()
+        for f in fs:
+            _find_inre(f, atoms, seen)
     uniq = {}
     for a in atoms:
         uniq.setdefault(a.get_id(), a)
@@ -80,6 +138,48 @@ def regex_cegar(smt2, timeout_s, input_names):
     groups = {}
     for a, b in subs:
         groups.setdefault(a.arg(0).get_id(), (a.arg(0), []))[1].append((a.arg(1), b))
+    # unconditional facts about a subject alone (e.g. "the name contains no newline"): used when a minterm is tested for
+    # emptiness, so that witnesses respect them (sound: they are top-level conjuncts of the problem)
+    def conjuncts(f):
+        if z3.is_and(f):
+            for c in f.children():
+                yield from conjuncts(c)
+        else:
+            yield f
+
+    def syms(e):
+        out, seen_, stack = set(), set(), [e]
+        while stack:
+            x_ = stack.pop()
+            if x_.get_id() in seen_:
+                continue
+            seen_.add(x_.get_id())
+            if z3.is_quantifier(x_):
+                out.add("<quantifier>")
+                continue
+            if z3.is_app(x_):
+                if x_.decl().kind() == z3.Z3_OP_UNINTERPRETED:
+                    out.add(x_.decl().name())
+                stack.extend(x_.children())
+        return out
+    top = [c for f in fs for c in conjuncts(f)]
+    side = {}
+    for gid, (term, members) in groups.items():
+        ts = syms(term)
+        tsx = term.sexpr()
+        facts = []
+        for c in top:
+            if len(facts) >= 6:
+                break
+            cs = syms(c)
+            if "<quantifier>" in cs or not cs or not cs <= ts or tsx not in c.sexpr():
+                continue
+            acc, seen2 = [], set()
+            _find_inre(c, acc, seen2)
+            if acc:
+                continue
+            facts.append(c)
+        side[gid] = facts
     s = z3.Solver(ctx=ctx)
     s.set("timeout", int(max(1, timeout_s) * 1000))
     s.add(*abstracted)
@@ -104,17 +204,53 @@ def regex_cegar(smt2, timeout_s, input_names):
                 x = z3.String("__w", ctx)
                 if time.time() - t0 > timeout_s:
                     return None, None
+                # 1. derivative-based emptiness (pyvc/rxempty.py); a witness is re-validated by z3 on the concrete string
+                from . import rxempty
+                lits = [(R, pos) for R, b, pos in sel]
+                pure = True
+                for fact in side.get(gid, ()):
+                    f2 = z3.substitute(fact, (term, x))
+                    if z3.is_not(f2) and f2.arg(0).decl().kind() == z3.Z3_OP_SEQ_CONTAINS and f2.arg(0).arg(0).eq(x) \
+                            and z3.is_string_value(f2.arg(0).arg(1)) and len(_decode_z3_string(f2.arg(0).arg(1).as_string())) == 1:
+                        rs = z3.ReSort(z3.StringSort(ctx))
+                        lits.append((z3.Star(z3.Intersect(z3.AllChar(rs), z3.Complement(z3.Re(f2.arg(0).arg(1))))), True))
+                    else:
+                        pure = False
+                ok_, w_ = rxempty.nonempty(lits)
+                if ok_ is False and pure:
+                    return False, None
+                if ok_ is True:
+                    sv = z3.StringVal(w_, ctx)
+                    chk = [z3.simplify(z3.InRe(sv, R)) for R, pos in lits]
+                    if all((z3.is_true(c) if pos else z3.is_false(c)) for c, (R, pos) in zip(chk, lits)):
+                        if pure:
+                            return True, w_
+                    elif os.environ.get("PYVC_TRACE_CEGAR"):
+                        print("cegar: rxempty witness rejected by z3:", repr(w_))
+                # 2. the SMT solver
                 q = z3.Solver(ctx=ctx)
-                q.set("timeout", 3000)
+                q.set("timeout", 12000)
                 for R, b, pos in sel:
                     q.add(z3.InRe(x, R) if pos else z3.Not(z3.InRe(x, R)))
-                # the subject's other string constraints are not used here: the witness only has to exist
+                for fact in side.get(gid, ()):
+                    f2 = z3.substitute(fact, (term, x))
+                    # "c does not occur in x" for a single character c, as a membership (keeps the query purely regular)
+                    if z3.is_not(f2) and f2.arg(0).decl().kind() == z3.Z3_OP_SEQ_CONTAINS and f2.arg(0).arg(0).eq(x) \
+                            and z3.is_string_value(f2.arg(0).arg(1)) and len(_decode_z3_string(f2.arg(0).arg(1).as_string())) == 1:
+                        ch_ = f2.arg(0).arg(1)
+                        rs = z3.ReSort(z3.StringSort(ctx))
+                        q.add(z3.InRe(x, z3.Star(z3.Intersect(z3.AllChar(rs), z3.Complement(z3.Re(ch_))))))
+                    else:
+                        q.add(f2)
                 rr = q.check()
                 if rr == z3.sat:
                     w = q.model()[x]
                     return True, (w.as_string() if w is not None else "")
                 if rr == z3.unsat:
                     return False, None
+                if os.environ.get("PYVC_TRACE_CEGAR"):
+                    open("/tmp/minterm.smt2", "w").write(q.to_smt2())
+                    print("cegar: minterm query undecided for", str(term)[:40], [(pos, str(R).replace("\n", " ")[:70]) for R, b, pos in sel])
                 return None, None
             ok, w = nonempty(lits)
             if ok is None:
@@ -142,9 +278,52 @@ def regex_cegar(smt2, timeout_s, input_names):
         for term, w in witnesses:
             s2.add(term == z3.StringVal(w, ctx))
         r2 = s2.check()
-        if r2 == z3.sat:
+        if r2 == z3.sat and _model_ok(s2.model(), fs):
             return ("sat", _model_values(s2.model(), set(input_names)), rounds)
-        # witness not extendable: block this exact propositional assignment and continue
+        # This particular witness does not extend (the subject is constrained by other string facts).  That alone says
+        # nothing about the propositional assignment: decide the assignment itself with the memberships as real constraints.
+        # Only a genuine `unsat` of it may be blocked; anything else ends the abstraction inconclusively.
+        s3 = z3.Solver(ctx=ctx)
+        s3.set("timeout", 8000)
+        s3.add(*fs)
+        for a, b in subs:
+            s3.add(a if z3.is_true(m.eval(b, model_completion=True)) else z3.Not(a))
+        r3 = s3.check()
+        if os.environ.get("PYVC_TRACE_CEGAR"):
+            for a, b in subs:
+                print("   atom", z3.is_true(m.eval(b, model_completion=True)), str(a.arg(0))[:30], str(a.arg(1)).replace("\n", " ")[:150])
+            print("cegar: witness not extendable", [(str(t)[:40], w) for t, w in witnesses], "r2", r2, "r3", r3, s3.reason_unknown() if r3 == z3.unknown else "")
+        if r3 == z3.sat and _model_ok(s3.model(), fs):
+            return ("sat", _model_values(s3.model(), set(input_names)), rounds)
+        if r3 == z3.sat:
+            return None
+        if r3 != z3.unsat:
+            # weaker problem: the quantifier-free conjuncts only.  If even that is unsatisfiable under this assignment,
+            # so is the full problem, and the assignment may be blocked; any other answer is inconclusive.
+            # (every quantified subformula is replaced by a Boolean constant, the same one for identical subformulas: an
+            # over-approximation, so `unsat` carries over to the full problem)
+            qsubs, qseen, stack = [], set(), list(fs)
+            while stack:
+                x_ = stack.pop()
+                if x_.get_id() in qseen:
+                    continue
+                qseen.add(x_.get_id())
+                if z3.is_quantifier(x_):
+                    qsubs.append((x_, z3.Bool(f"__q{len(qsubs)}", ctx)))
+                elif z3.is_app(x_):
+                    stack.extend(x_.children())
+            s4 = z3.Solver(ctx=ctx)
+            s4.set("timeout", 8000)
+            s4.add(*[z3.substitute(f, *qsubs) if qsubs else f for f in fs])
+            for a, b in subs:
+                s4.add(a if z3.is_true(m.eval(b, model_completion=True)) else z3.Not(a))
+            r4 = s4.check()
+            if os.environ.get("PYVC_TRACE_CEGAR"):
+                print("cegar: quantifier-free assignment check", r4, s4.reason_unknown() if r4 == z3.unknown else "")
+                if r4 == z3.sat:
+                    print("   model:", str(s4.model())[:1500])
+            if r4 != z3.unsat:
+                return None
         s.add(z3.Or(*[z3.Not(b) if z3.is_true(m.eval(b, model_completion=True)) else b for _, b in subs]))
     return None
 
@@ -157,7 +336,7 @@ def solve_one(task):
     if "str.in_re" in smt2 or "str.in.re" in smt2:
         t1 = time.time()
         try:
-            rc = regex_cegar(smt2, budgets.get("regex", 12 if budgets.get("z3", 10) <= 10 else 40), input_names)
+            rc = regex_cegar(smt2, budgets.get("regex", 40 if budgets.get("z3", 10) <= 10 else 90), input_names)
         except z3.Z3Exception as e:
             rc = None
             log.append(("regex-cegar", "error:" + str(e)[:100], round(time.time() - t1, 3)))
@@ -206,7 +385,9 @@ def solve_one(task):
         log.append(("z3", str(r), round(dt, 3)))
         if r == z3.unsat:
             return dict(name=name, verdict="unsat", backend="z3", seconds=dt, log=log, model=None)
-        if r == z3.sat:
+        if r == z3.sat and not _model_ok(s.model(), s.assertions()):
+            log.append(("z3", "sat with a model that falsifies an assertion: ignored", round(dt, 3)))
+        elif r == z3.sat:
             vals = _model_values(s.model(), set(input_names))
             for v in vals.values():
                 if v["kind"] == "str":
